@@ -181,11 +181,12 @@ type half struct {
 func newHalf() *half { h := &half{}; h.cond = sync.NewCond(&h.mu); return h }
 
 type BufConn struct {
-	r, w    *half
-	rec     *bytes.Buffer // everything written by this side
-	recMu   sync.Mutex
-	OnWrite func(b []byte)
-	name    string
+	r, w     *half
+	rec      *bytes.Buffer // everything written by this side
+	recMu    sync.Mutex
+	OnWrite  func(b []byte)
+	PreWrite func(b []byte) // called before the bytes become readable by the peer
+	name     string
 }
 
 type TimeoutErr struct{}
@@ -234,6 +235,9 @@ func (c *BufConn) Read(p []byte) (int, error) {
 }
 
 func (c *BufConn) Write(p []byte) (int, error) {
+	if c.PreWrite != nil {
+		c.PreWrite(p)
+	}
 	h := c.w
 	h.mu.Lock()
 	if h.closed || h.rclosed {
@@ -382,6 +386,8 @@ type HSOpts struct {
 	EKM       []EKMReq
 	AfterBoth func(r *HSResult, uc *tls.UConn, srv *tls.Conn)
 	KeepOpen  bool
+	// OnClientWrite sees every buffer the client hands to the transport, before the peer can read it.
+	OnClientWrite func(b []byte)
 }
 
 type EKMReq struct {
@@ -398,6 +404,7 @@ func RunHandshake(ccfg, scfg *tls.Config, id tls.ClientHelloID, o HSOpts) (r HSR
 		o.Timeout = 5 * time.Second
 	}
 	c, s := BufPipe()
+	c.PreWrite = o.OnClientWrite
 	dl := time.Now().Add(o.Timeout)
 	c.SetDeadline(dl)
 	s.SetDeadline(dl)
@@ -418,7 +425,7 @@ func RunHandshake(ccfg, scfg *tls.Config, id tls.ClientHelloID, o HSOpts) (r HSR
 			for _, q := range o.EKM {
 				b, err := r.SS.ExportKeyingMaterial(q.Label, q.Context, q.Len)
 				if err != nil {
-					b = []byte("ERR:" + err.Error())
+					b = nil // refused (documented: renegotiation enabled, or no EMS below TLS 1.3)
 				}
 				r.SEKM = append(r.SEKM, b)
 			}
@@ -460,7 +467,7 @@ func RunHandshake(ccfg, scfg *tls.Config, id tls.ClientHelloID, o HSOpts) (r HSR
 			for _, q := range o.EKM {
 				b, err := r.CS.ExportKeyingMaterial(q.Label, q.Context, q.Len)
 				if err != nil {
-					b = []byte("ERR:" + err.Error())
+					b = nil // refused (documented: renegotiation enabled, or no EMS below TLS 1.3)
 				}
 				r.CEKM = append(r.CEKM, b)
 			}
